@@ -452,10 +452,13 @@ def numeric_literal(s, strict):
                 return ERR      # 017.5 / 017e1 are not literals
             return round_nneg(int(head, 8), 1)
         rest = s[i:]
-        if "_" in s:
-            return ERR
-        r = scan_decimal(head + rest)
-        if r is None or r[2] != len(s):
+        if rest[:1] == "_":
+            return ERR          # no separator in (or right after) the NonOctalDecimalIntegerLiteral
+        if rest and numeric_literal("1" + rest, True) == ERR:
+            return ERR          # the continuation must be a well-formed fraction / exponent (separators allowed there)
+        clean = (head + rest).replace("_", "")
+        r = scan_decimal(clean)
+        if r is None or r[2] != len(clean):
             return ERR
         return dec_value_bits(False, r[0], r[1])
     # DecimalLiteral with separators
